@@ -15,6 +15,7 @@ TRANSLATORS: dict[str, str] = {
     "GenFields": "fields",
     "GenGraph": "graph",
     "GenLocales": "locales",
+    "GenBody": "body",
 }
 
 
